@@ -1,15 +1,16 @@
 SPECIFICATION Spec
 CONSTANTS
   MaxRows = 2
-  MaxW = 3
+  MaxW = 2
   SelMenu = {1, 2, 3}
-  WireMode = "abc"
+  WireMode = "full"
   InitMode = "empty"
   SortPI = TRUE
 INVARIANTS
   RoundTripKeys
   CompressDeterministic
   DictsBijective
+  SigmaIsNextInClass
   CapacityAgrees
   RejectsMalformed
   AcceptsSparse
